@@ -11,7 +11,13 @@ S->C : Gen_ValueMap - TLC enumerates the anchor points of every input type
        ties / subnormals / overflow); each is run through the real transformer
        for every output type.
 C->S : seeded random values per (input, output) pair.  Every group of values
-       is converted by the REAL transformer in both modes x four layouts;
+       is converted by the REAL transformer in both modes x four layouts, and
+       - for every multi-byte input type - in four byte-order arrangements:
+       native, transformer built from the byte-swapped dtype AND byte-swapped
+       chunk (data of a big-endian file, as slices_to_precomputed passes
+       block.dtype), only the transformer's dtype swapped, only the chunk
+       swapped.  The values are the same in every arrangement; TLC sees the
+       type by its byte-order-free name, results are dumped in native order;
        Trace_ValueMap judges every element of the reference call against
        Convert (oracle:Nearest) and every call for oracle:Raised,
        oracle:InputModified, oracle:OutputType, oracle:ModeDependent.
@@ -25,7 +31,8 @@ LEVEL = "model_checking"
 RULE = ("value case = (input dtype, output dtype, exact input value); non-trivial when the dtypes differ "
         "and the value is not a small in-range integer (needs rounding, saturation, or exceeds 2^24); "
         "distinct = distinct (in, out, value) triples.  Call case = (pair, mode, layout, values); "
-        "non-trivial when the mode is in-place or the layout is not contiguous")
+        "non-trivial when the mode is in-place, the layout is not contiguous or the byte order is not "
+        "native; call cases are distinct per byte-order arrangement")
 
 
 def value_cases_of(group, ref):
@@ -34,7 +41,7 @@ def value_cases_of(group, ref):
         rk, r = vd.enc_result(x)
         out.append({"k": "v", "in": group["in"], "out": group["out"],
                     "v": vd.enc_fraction(fr), "rk": rk, "r": r,
-                    "_fr": fr, "_mode": ref["mode"], "_layout": ref["layout"],
+                    "_fr": fr, "_mode": ref["mode"], "_layout": ref["layout"], "_order": group["order"],
                     "_obs": repr(x)})
     return out
 
@@ -42,7 +49,8 @@ def value_cases_of(group, ref):
 def run_cases_of(group, ref):
     out = []
     for run in group["runs"]:
-        out.append({"k": "run", "in": group["in"], "out": group["out"], "mode": run["mode"],
+        out.append({"k": "run", "in": group["in"], "out": group["out"], "order": group["order"],
+                    "mode": run["mode"],
                     "layout": run["layout"], "exc": run["exc"], "before": run["before"],
                     "after": run["after"], "res": run["res"],
                     "ref": ref["res"] if ref is not None else run["res"],
@@ -83,23 +91,23 @@ def build_groups(ctx):
             if not vd.representable(p, i):
                 raise tlc.MachineryError("TLC anchor %s is not a value of %s" % (p, i))
         for o in vd.OUT_DTYPES:
-            for k in range(0, len(pts), per):
-                groups.append(("anchor", vd.run_group(i, o, pts[k:k + per])))
-            # C->S: random values
-            vals = vd.random_values(ctx.rng, i, o, nrand)
-            for k in range(0, len(vals), per):
-                groups.append(("random", vd.run_group(i, o, vals[k:k + per])))
+            vals = vd.random_values(ctx.rng, i, o, nrand)     # C->S: random values
+            for order in vd.orders_for(i):
+                for k in range(0, len(pts), per):
+                    groups.append(("anchor", vd.run_group(i, o, pts[k:k + per], order)))
+                for k in range(0, len(vals), per):
+                    groups.append(("random", vd.run_group(i, o, vals[k:k + per], order)))
     return groups
 
 
 def sig_value(c):
     return {"in_dtype": c["in"], "out_dtype": c["out"], "mode": c["_mode"], "layout": c["_layout"],
-            "value_class": vd.value_class(c["_fr"], c["out"])}
+            "byte_order": c["_order"], "value_class": vd.value_class(c["_fr"], c["out"])}
 
 
 def sig_run(c):
     return {"in_dtype": c["in"], "out_dtype": c["out"], "mode": c["mode"], "layout": c["layout"],
-            "exc": c["exc"], "value_class": "array"}
+            "byte_order": c["order"], "exc": c["exc"], "value_class": "array"}
 
 
 def judge_groups(ctx, groups):
@@ -139,19 +147,21 @@ def report(ctx, cases, verdicts):
                               {"kind": "value", "in": c["in"], "out": c["out"],
                                "value": str(c["_fr"]), "value_hex": float(c["_fr"]).hex()
                                if abs(c["_fr"]) < 2 ** 1000 else "", "observed": c["_obs"],
-                               "mode": c["_mode"], "layout": c["_layout"], "case": strip(c)})
+                               "mode": c["_mode"], "layout": c["_layout"], "order": c["_order"],
+                               "case": strip(c)})
             elif nsample < 2 and cls != "in_range/int/le2^24" and c["in"] != c["out"]:
                 nsample += 1
                 ctx.sample({"in": c["in"], "out": c["out"], "value": str(c["_fr"]),
                             "observed": c["_obs"], "verdict": "ok"})
         else:
-            if c["mode"] == "inplace" or c["layout"] != "contig":
-                ctx.nontrivial(("run", c["in"], c["out"], c["mode"], c["layout"], c["before"][:64],
+            if c["mode"] == "inplace" or c["layout"] != "contig" or c["order"] != "native":
+                ctx.nontrivial(("run", c["in"], c["out"], c["order"], c["mode"], c["layout"], c["before"][:64],
                                 len(c["before"])))
             if st != "ok":
                 g = c["_group"]
                 ctx.violation(clause, sig_run(c),
-                              {"kind": "run", "in": c["in"], "out": c["out"], "mode": c["mode"],
+                              {"kind": "run", "in": c["in"], "out": c["out"], "order": c["order"],
+                               "mode": c["mode"],
                                "layout": c["layout"], "exc": c["exc"], "msg": c["_run"].get("msg", ""),
                                "values": [str(v) for v in g["values"]]})
     run_ok = [c for c in cases if c["k"] == "run" and verdicts[c["tid"]][0] == "ok"
@@ -169,6 +179,8 @@ def run(ctx):
         "float32 target: a value whose IEEE rounding exceeds the largest finite float32 may come out as "
         "that maximum or as infinity (both accepted); -0.0 = +0.0; NaN/inf inputs are outside the property",
         "in the in-place mode the caller's buffer may hold anything after the call",
+        "an input type in non-native byte order is the same input type (same values); the byte order of the "
+        "RESULT's dtype is not constrained (dtype compared by name, content in native order)",
         "TLC 1.8 evaluates the oracle faithfully; harness/valuemap_driver.py only re-encodes numbers "
         "(int / float.as_integer_ratio -> bit sequences) and buffer bytes (hex)",
     ]
@@ -195,7 +207,7 @@ def replay(ctx, path):
         values = [Fraction(d["value"])]
     else:
         values = [Fraction(v) for v in d["values"]]
-    g = vd.run_group(d["in"], d["out"], values)
+    g = vd.run_group(d["in"], d["out"], values, d.get("order", "native"))
     cases, verdicts = judge_groups(ctx, [("replay", g)])
     worst = "ok"
     for c in cases:
